@@ -140,11 +140,11 @@ func init() {
 
 		// ---- direct-writers inventory ----
 		allowed := map[string]string{
-			"(*blockchain.Blockchain).SetL1Head":              "single-key L1 head pointer, not part of a block's atomic unit (C17)",
+			"(*blockchain.Blockchain).SetL1Head":               "single-key L1 head pointer, not part of a block's atomic unit (C17)",
 			"(*blockchain.Blockchain).WriteRunningEventFilter": "shutdown snapshot of the running filter",
-			"(*core.RunningEventFilter).Insert":               "non-batch variant used only by the (re)initialiser on a private filter",
-			"(*core.RunningEventFilter).OnReorg":              "non-batch variant kept for API compatibility; not reachable from an atomic closure",
-			"(*core.RunningEventFilter).Write":                "shutdown snapshot of the running filter",
+			"(*core.RunningEventFilter).Insert":                "non-batch variant used only by the (re)initialiser on a private filter",
+			"(*core.RunningEventFilter).OnReorg":               "non-batch variant kept for API compatibility; not reachable from an atomic closure",
+			"(*core.RunningEventFilter).Write":                 "shutdown snapshot of the running filter",
 		}
 		seenAllowed := map[string]bool{}
 		ndw := 0
